@@ -65,7 +65,13 @@ LinesInit ==
         /\ m = LInit(b, cap)
         /\ src = [NoSrc EXCEPT !.t = "lines"]
 
-Init == TokInit \/ RtInit \/ LinesInit
+\* seekable source sniffed at every offset (strings up to MaxLn over the token alphabet's markers)
+SeekInit ==
+    \E b \in Strings({GT, AT, LF, A}, MaxLn) : \E off \in 0..Len(b) :
+        /\ m = SInit(b, off)
+        /\ src = [NoSrc EXCEPT !.t = "seeksrc"]
+
+Init == TokInit \/ RtInit \/ LinesInit \/ SeekInit
 
 \* ------------------------------------------------------------------ actions
 SniffA     == SniffEn(m)      /\ m' = Sniff(m)      /\ UNCHANGED src
@@ -76,32 +82,37 @@ FqSeqLineA == FqSeqLineEn(m)  /\ m' = FqSeqLine(m)  /\ UNCHANGED src
 FqQualLineA == FqQualLineEn(m) /\ m' = FqQualLine(m) /\ UNCHANGED src
 FqFinishA  == FqFinishEn(m)   /\ m' = FqFinish(m)   /\ UNCHANGED src
 IsLines == m.kind = "lines"
+IsSeek  == m.kind = "seeksrc"
+IsParser == ~IsLines /\ ~IsSeek
+SReadA     == IsSeek /\ SReadEn(m) /\ m' = SRead(m) /\ UNCHANGED src
+SBackA     == IsSeek /\ SBackEn(m) /\ m' = SBack(m) /\ UNCHANGED src
 LFillA(k)  == IsLines /\ LFillEn(m, k) /\ m' = LFill(m, k) /\ UNCHANGED src
 LScanA     == IsLines /\ LScanEn(m)    /\ m' = LScan(m)    /\ UNCHANGED src
 LEofA      == IsLines /\ LEofEn(m)     /\ m' = LEof(m)     /\ UNCHANGED src
 
-ParserNext == ~IsLines /\ (SniffA \/ FaBeginA \/ FaSeqLineA \/ FqBeginA \/ FqSeqLineA \/ FqQualLineA \/ FqFinishA)
-Next == ParserNext \/ (\E k \in 1..MaxCap : LFillA(k)) \/ LScanA \/ LEofA
+ParserNext == ~IsLines /\ ~IsSeek /\ (SniffA \/ FaBeginA \/ FaSeqLineA \/ FqBeginA \/ FqSeqLineA \/ FqQualLineA \/ FqFinishA)
+Next == ParserNext \/ (\E k \in 1..MaxCap : LFillA(k)) \/ LScanA \/ LEofA \/ SReadA \/ SBackA
 Spec == Init /\ [][Next]_vars
 
 \* --------------------------------------------------------------- invariants
 \* totality: a machine that is not finished can always take a step
 NotStuck ==
     m.done \/ IF IsLines THEN (\E k \in 1..MaxCap : LFillEn(m, k)) \/ LScanEn(m) \/ LEofEn(m)
+              ELSE IF IsSeek THEN SReadEn(m) \/ SBackEn(m)
               ELSE SniffEn(m) \/ FaBeginEn(m) \/ FaSeqLineEn(m) \/ FqBeginEn(m) \/ FqSeqLineEn(m)
                    \/ FqQualLineEn(m) \/ FqFinishEn(m)
 
 \* the iterator ends within (number of lines + 1) items
-Bounded == ~IsLines => /\ m.i <= Len(m.ls) + 1
+Bounded == IsParser => /\ m.i <= Len(m.ls) + 1
                        /\ Len(m.out) <= Len(m.ls) + 1
                        /\ m.q <= m.n /\ m.n <= Len(m.ls)
 
 \* the step machine and the functional definition agree on every input
-Agree == (~IsLines /\ m.done) => m.out = ItemsFor(src.p, src.b)
+Agree == (IsParser /\ m.done) => m.out = ItemsFor(src.p, src.b)
 
 \* the closed form of Lines used for long streams = the byte-by-byte definition
 LinesClosedForm == IF IsLines THEN m.pos = 0 => Lines(m.data) = LinesRec(m.data)
-                   ELSE m.out = << >> => Lines(src.b) = LinesRec(src.b)
+                   ELSE IsParser => (m.out = << >> => Lines(src.b) = LinesRec(src.b))
 
 \* generated records respect the documented preconditions
 ValidGen == src.t = "rt" => \A i \in 1..Len(src.recs) : ValidRec(src.kind, src.recs[i], src.wrap)
@@ -125,5 +136,20 @@ LinesAgree == (IsLines /\ m.done) => m.lines = Lines(m.data)
 
 \* termination: every step decreases the measure
 LMu(x) == 2 * ((Len(x.data) - x.pos) + Len(x.buf)) + (IF x.buf = << >> THEN 1 ELSE 0)
-Progress == [][IF IsLines THEN m'.done \/ LMu(m') < LMu(m) ELSE m'.done \/ Mu(m') < Mu(m)]_vars
+Progress == [][IF IsLines THEN m'.done \/ LMu(m') < LMu(m)
+                ELSE IF IsSeek THEN m'.done \/ (m.phase = "read" /\ m'.phase = "back")
+                ELSE m'.done \/ Mu(m') < Mu(m)]_vars
+
+\* get_kind_seek on a source at any offset: the position is unchanged and the answer is the
+\* kind of the bytes from that offset on (SniffAt of the definition layer)
+SeekSniff == (IsSeek /\ m.done) => /\ m.pos = m.pos0
+                                   /\ [kind |-> m.res, pos |-> m.pos] = SniffAt(m.data, m.pos0)
+\* a section of valid records behind any prefix: sniffed at its offset it is read back as the records
+SectionLemma ==
+    (src.t = "rt" /\ src.full /\ m.out = << >> /\ ~m.done /\ m.i = 1 /\ m.phase \in {"idle", "sniff"}) =>
+        \A pre \in {<<AT, A, LF>>, src.b, <<A>>} :
+            LET c == pre \o src.b IN
+            /\ Suffix(c, Len(pre)) = src.b
+            /\ ItemsAfterSniff(c, Len(pre)) = ItemsOf(src.kind, src.recs)
+            /\ src.recs # << >> => SniffAt(c, Len(pre)).kind = src.kind
 =============================================================================
